@@ -39,3 +39,24 @@ Theorem C30_stats_equal_refuted :
     stats_slow merge_row (diff base left) (diff base right).
 Proof. exact stats_equal_refuted. Qed.
 Print Assumptions C30_stats_equal_refuted.
+
+Theorem C30_oracle_on_model_partial :
+  forall i, sorted (i_base i) -> sorted (i_left i) -> sorted (i_right i) ->
+    let o := model_obs i in
+    let ld := diff (i_base i) (i_left i) in
+    let rd := diff (i_base i) (i_right i) in
+    rows_conf_eqb (o_fast o) (o_chk o) = true /\
+    rows_conf_eqb (o_fast o) (o_idx o) = true /\
+    (short_circuit (i_base i) (i_left i) (i_right i) <> None \/ fst (stats_slow merge_row ld rd) = (0, 0, 0) ->
+     oracle i o = true).
+Proof. exact oracle_on_model_partial. Qed.
+Print Assumptions C30_oracle_on_model_partial.
+
+Theorem C30_oracle_on_model_refuted :
+  exists i, sorted (i_base i) /\ sorted (i_left i) /\ sorted (i_right i) /\ oracle i (model_obs i) = false.
+Proof. exact oracle_on_model_refuted. Qed.
+Print Assumptions C30_oracle_on_model_refuted.
+
+Theorem C30_row_merger_resolves_delete_to_delete : delete_resolves_to_delete merge_row.
+Proof. exact merge_row_delete. Qed.
+Print Assumptions C30_row_merger_resolves_delete_to_delete.
